@@ -43,12 +43,14 @@ enum OpCode : uint8_t {
   SETVER,                  // x value
   XVER,                    // x
   NOP,                     // harness scheduling point only
+  S_MANY,                  // a: lock, arg: n - this thread takes n shared grants on the lock (guards are not bound to threads) and keeps them
+  S_MANY_REL,              // a: lock - releases them all
   HOLD,                    // arg: stay where we are (typically inside a critical section) for arg interpreter-level yields
   kNumOps
 };
 inline const char *kOpName[] = {"ACQ_S", "ACQ_SIX", "ACQ_X", "REL", "DROP", "MOVE", "MOVECTOR", "SELFMOVE", "UPG", "DWN", "READ",
                                 "WRITE", "GETVER", "COPYOPT", "OPTREAD", "VERIFY", "TRY_S", "TRY_SIX", "TRY_X", "PREP", "CVERIFY",
-                                "SETVER", "XVER", "NOP", "HOLD"};
+                                "SETVER", "XVER", "NOP", "S_MANY", "S_MANY_REL", "HOLD"};
 
 struct Op {
   uint8_t code = NOP;
@@ -209,6 +211,7 @@ struct Outcome {
   bool validate_raced = false;   // a validation (VERIFY/TRY/CVERIFY) ran after another thread committed since the sample, or failed
   bool validated_ok = false;     // a validation succeeded
   bool x_end_dtor = false, x_end_move = false, x_end_dwn = false, wrapped = false;
+  uint32_t many_shared = 0;      // largest number of shared grants one thread held at once through S_MANY
   bool prep_fallback = false;    // PrepareRead returned an owning guard
   bool prep_seen_x = false;      // PrepareRead called while X registered
   bool two_waiting = false;      // >= 2 requests waiting simultaneously (MCS)
